@@ -493,7 +493,7 @@ def configs_b(ctx: Ctx) -> list[dict[str, Any]]:
         add(100.0, ["hold"], [100.0])
         add(100.0, ["hold"], [50.0, 50.0], bound=1)
         add(100.0, ["quick"], [100.0, 100.0], bound=1)
-        add(10.0, ["hold"], [60.0])
+        add(10.0, ["hold"], [60.0], bound=1)
         add(10.0, ["quick"], [10.0, 50.0], bound=1)
         add(10.0, ["hold"], [5.0, 5.0], bound=1)
         add(None, ["hold"], [100.0])
@@ -899,11 +899,10 @@ def configs_a(ctx: Ctx) -> list[dict[str, Any]]:
         add([1, 1], init="crashed")
         add([1, 1], init="live", env=["exit"])
         add([1, 1], init="live", env=["crash"])
-        add([1, 1], env=["crash"])
+        add([1, 1], env=["crash"], bound=1)
         add([1, 2], init="crashed")
         add([1, 1, 1], bound=1)
         add([1, 1, 2], init="crashed", bound=1)
-        add([2, 1], init="crashed")
         add([1, 1], bound=1, trace=True)
         add([1, 2], init="crashed", bound=1, trace=True)
         add([2, 1], init="crashed", bound=1, trace=True)
